@@ -98,6 +98,15 @@ def enumerate_cases(tier: str):
                         yield {"version": version, "registry": registry, "fail_requests": [], "listen_mode": "fresh", "ops": [event, ["rx", first], ["rx", MISSING_KINDS[0]]]}
 
 
+    # the whole id space: every node id gets its request (once), also 0, 254 and 255
+    for version in ("2.0", "2.2", "1.5"):
+        for start in range(0, 256, 32):
+            ops = []
+            for node in range(start, start + 32):
+                ops += [["rx", f"{node};1;1;0;0;1\n"], ["rx", f"{node};1;2;0;0;\n"]]
+            for node in range(start, start + 32, 5):
+                ops += [["rx", f"{node};255;0;0;17;2.1\n"], ["rx", f"{node};9;1;0;0;1\n"], ["rx", f"{node};9;1;0;0;2\n"]]
+            yield {"version": version, "registry": {}, "fail_requests": [], "listen_mode": "persistent" if start % 64 else "fresh", "ops": ops}
     # a request whose write hangs until the application's receive timeout cancels it was never sent either
     for version in ("2.0", "2.1", "2.2"):
         for registry in ({}, {"5": {"children": {"0": {"child_type": 6}}}}):
